@@ -19,6 +19,11 @@ def main():
     quick = "--no-suite" in sys.argv
     tmp = pathlib.Path(tempfile.mkdtemp(prefix="cvref."))
     meta = {"refactoring": d.name, "property": prop}
+    if quick and (d / "meta.json").exists():
+        old = json.loads((d / "meta.json").read_text())
+        for k in ("suite", "demo_exit"):
+            if k in old:
+                meta[k] = old[k]  # confirmed earlier; only the checks are re-run
     try:
         mut = tmp / "mut"; mut.mkdir()
         shutil.copytree("/repo/src", mut / "src"); shutil.copytree("/repo/tests", mut / "tests")
